@@ -21,4 +21,7 @@ __CPROVER_requires(__CPROVER_r_ok(pop, poplen) && __CPROVER_r_ok(tx, txlen) && _
 __CPROVER_assigns(*pos_out, *guard)
 __CPROVER_ensures(RET == 0 || RET == 1)
 __CPROVER_ensures(RET == 0 ==> *pos_out <= txlen)
-__CPROVER_ensures((RET == 0 && *guard == 1) ==> *pos_out > pos);
+__CPROVER_ensures((RET == 0 && *guard == 1) ==> *pos_out > pos)
+/* exact cursor after an iteration that does not return (C05: a decoy magic must not hide a later honest split): the scan resumes
+ * right after the first byte that broke the magic, or - the magic matched and the attempt failed - right after the magic itself */
+__CPROVER_ensures((RET == 0 && *guard == 1) ? *pos_out == pos + (tx[pos] != 0x92 ? 1 : tx[pos + 1] != 0x7a ? 2 : 3) : 1);
